@@ -74,6 +74,54 @@ def check_state_origin(cx, chk, R="C05.key"):
     chk.floor(R, "calls of ParseState::new in entry points", n, 20)
 
 
+def check_global_state(cx, chk, R="C05.key"):
+    """The cache is keyed by the offset alone, so what a rule returns at an offset must not depend on any other mutable state of the
+    parse: ParseGlobal holds the caller-supplied tracer, cache and user context (fields whose type is a type parameter) and
+    nothing that generated code or the runtime modifies while parsing (a depth counter, a mode flag, statistics that feed back)."""
+    from . import common
+    rt = cx.runtime
+    adts = common.adt_by_suffix(rt, "global::ParseGlobal") or common.adt_by_suffix(rt, "ParseGlobal")
+    if not adts:
+        chk.anchor_missing(R, "struct ParseGlobal")
+        return
+    adt = adts[0]
+    gen = set(adt.get("generics") or [])
+    own = {f["name"]: f["ty"] for v in adt["variants"] for f in v["fields"] if f["ty"] not in gen}
+    n = 0
+    seen = set()
+    crates = [(rt, "runtime")] + [(i.crate, i.name.split(":")[0]) for i in cx.instances()]
+    done = set()
+    for crate, label in crates:
+        if id(crate) in done:
+            continue
+        done.add(id(crate))
+        for p, f in sorted(crate.fns.items()):
+            if "mir" not in f or mir.strip_generics(p).endswith("ParseGlobal::new"):
+                continue
+            b = cx.body(crate, p)
+            for i in sorted(b.reach):
+                for st in b.blocks[i]["stmts"]:
+                    if st["k"] != "assign":
+                        continue
+                    places = [st["place"]]
+                    rv = st["rv"]
+                    if rv["k"] in ("ref", "rawptr") and rv.get("mut", True) and "place" in rv:
+                        places.append(rv["place"])
+                    for pl in places:
+                        for pe in pl["p"]:
+                            if pe["k"] == "field" and (pe.get("owner") or "").endswith("::ParseGlobal"):
+                                n += 1
+                                if pe["name"] in own and (label, pe["name"]) not in seen:
+                                    seen.add((label, pe["name"]))
+                                    chk.violation(R, "global-state %s ParseGlobal.%s" % (label, pe["name"]),
+                                                  "%s modifies ParseGlobal.%s (%s) while parsing: state besides the cache that survives from one rule evaluation to "
+                                                  "the next - what a rule returns at an offset can depend on it, but a @memoize rule replays whatever was computed "
+                                                  "first at that offset" % (short(p), pe["name"], own[pe["name"]]), cx.site(b, i))
+    chk.ok(R, "global-state", {"ParseGlobal_fields": sorted(f["name"] for v in adt["variants"] for f in v["fields"]), "own_state_fields": sorted(own),
+                               "mutable_uses_of_ParseGlobal_fields": n})
+    chk.floor(R, "mutable uses of ParseGlobal fields (cache, tracer)", n, 50)
+
+
 def check_wrappers(cx, chk):
     """Obligations of every cached wrapper, read off its semantic summary (wrapsem.py)."""
     from . import wrapsem
@@ -178,6 +226,7 @@ def run(cx, chk):
                        "the rule is not part of a left-recursive cycle (stated in the property)"]
     check_key_runtime(cx, chk)
     check_state_origin(cx, chk)
+    check_global_state(cx, chk)
     check_wrappers(cx, chk)
     c20.check_fresh(cx, chk, "C05.fresh")
     check_frame(cx, chk)
